@@ -22,7 +22,11 @@ TZS = ["UTC", "Pacific/Kiritimati", "Pacific/Pago_Pago", "Asia/Kolkata", "Nowher
 LOCALES = ["C", "C.UTF-8", "POSIX", "de_DE.UTF-8", "tr_TR.UTF-8", ""]
 JUNK = [{"ZERV_X": "1", "FOO": "bar"}, {"COLUMNS": "7", "LINES": "1", "TERM": "dumb"}, {"NO_COLOR": "1", "CLICOLOR_FORCE": "1"},
         {"LC_TIME": "ja_JP.UTF-8", "LC_NUMERIC": "de_DE.UTF-8"}, {"RUST_BACKTRACE": "1"}, {"PAGER": "cat", "EDITOR": "vi"}, {"TMPDIR": "/nonexistent"},
-        {"USER": "someone", "LOGNAME": "else"}, {"SOURCE_DATE_EPOCH": "1"}, {"ZERV_TEST_NATIVE_GIT": "1"}]
+        {"USER": "someone", "LOGNAME": "else"}, {"SOURCE_DATE_EPOCH": "1"}, {"ZERV_TEST_NATIVE_GIT": "1"},
+        {"CI": "true", "GITHUB_ACTIONS": "true", "GITHUB_HEAD_REF": "feature/ci", "GITHUB_REF_NAME": "release/9", "GITHUB_REF": "refs/heads/release/9", "GITHUB_SHA": "0" * 40},
+        {"CI_COMMIT_REF_NAME": "hotfix/1", "CI_COMMIT_BRANCH": "hotfix/1", "CI_COMMIT_SHA": "f" * 40, "CI_COMMIT_TAG": "v9.9.9", "GITLAB_CI": "true"},
+        {"BRANCH_NAME": "release/2", "GIT_BRANCH": "origin/develop", "BUILD_NUMBER": "77", "JENKINS_URL": "http://x", "TRAVIS_BRANCH": "dev", "CIRCLE_BRANCH": "dev"},
+        {"ZERV_BRANCH": "x", "ZERV_TAG": "v8.8.8", "VERSION": "7.7.7", "SETUPTOOLS_SCM_PRETEND_VERSION": "6.6.6"}]
 TS_TEMPLATES = ["{{ format_timestamp(value=bumped_timestamp) }}", "{{ format_timestamp(value=bumped_timestamp, format='compact_datetime') }}",
                 "{{ format_timestamp(value=bumped_timestamp, format='%Y/%m/%d %H:%M:%S') }}-{{ semver }}", "{{ bumped_timestamp }}:{{ hash(value=bumped_branch) }}",
                 "{{ hash_int(value=bumped_branch, length=9) }}.{{ semver }}"]
@@ -169,11 +173,21 @@ def work_repo(bins, seed, idx, tmp):
             pass
         if not any(gitmodel.valid_in(t["name"], "auto") and t["cid"] in repo.anc(repo.head_cid()) for t in repo.tags):
             repo.tag("v%d.%d.%d" % (rng.randrange(9), rng.randrange(9), rng.randrange(9)))
+        if rng.random() < 0.5:
+            # equal-precedence tags that render differently on one commit: the choice among them must not vary between processes
+            x, y = rng.randrange(20, 40), rng.randrange(9)
+            for name in ("v%d.%d" % (x, y), "%d.%d.0" % (x, y), "%d.%d.0.0" % (x, y), "V%d.%d.0" % (x, y)):
+                repo.tag(name, annotated=rng.random() < 0.3)
+            if rng.random() < 0.6:
+                repo.commit()
+        if rng.random() < 0.35:
+            repo.detach(repo.head_cid())        # CI-style detached checkout
         kind = rng.choice(["clean", "modified", "untracked", "clean"])
         repo.make_dirty(kind)
         os.makedirs(os.path.join(top, "otherhome"), exist_ok=True)
         os.makedirs(os.path.join(path, "sub", "dir"), exist_ok=True) if kind != "clean" else None
         for cmd in (["version"], ["flow"], ["version", "--output-format", "zerv"], ["flow", "--output-format", "pep440"],
+                    ["version", "--input-format", "pep440", "--output-format", "pep440"], ["version", "--input-format", "pep440", "--output-format", "zerv"],
                     ["version", "--schema", "calver", "--output-template", "{{ semver }}|{{ format_timestamp(value=bumped_timestamp) }}|{{ hash_int(value=bumped_branch, length=6) }}"]):
             runs = [
                 ("abs-C from /", cmd + ["-C", path], "/", {}),
@@ -185,7 +199,11 @@ def work_repo(bins, seed, idx, tmp):
                 ("other HOME", cmd + ["-C", path], "/", {"HOME": os.path.join(top, "otherhome")}),
                 ("TZ+locale", cmd + ["-C", path], "/tmp", {"TZ": rng.choice(TZS[1:]), "LANG": rng.choice(LOCALES[2:5]), "LC_ALL": "tr_TR.UTF-8"}),
                 ("junk env", cmd + ["-C", path], "/", dict(rng.choice(JUNK))),
+                ("ci env", cmd + ["-C", path], "/", dict(rng.choice(JUNK[-4:]))),
                 ("repeat", cmd + ["-C", path], "/", {}),
+                ("repeat 2", cmd + ["-C", path], "/", {}),
+                ("repeat 3", cmd + ["-C", path], "/", {}),
+                ("repeat 4", cmd + ["-C", path], "/", {}),
             ]
             base = None
             for label, argv, cwd, extra in runs:
@@ -231,7 +249,7 @@ def run(ctx):
             ctx.refute(sig, why, case)
     ctx.rule = ("%d input vectors (flow and version command lines from the C04/C05 generators incl. dirty states, calver presets and ts components with random commit "
                 "times, templates with format_timestamp / hash / hash_int / current_timestamp) each run as 8 separate processes under random TZ in %r, locale in %r, "
-                "cwd, junk variables, plus a second pinned wall clock with the shim's read log; %d random git repositories x 5 commands x 10 (cwd, -C absolute / "
+                "cwd, junk variables, plus a second pinned wall clock with the shim's read log; %d random git repositories x 7 commands x 14 (cwd, -C absolute / "
                 "relative, HOME, TZ, locale, repeat) variants. non-trivial = distinct vectors and repository variants compared" % (32 * per, TZS, LOCALES, nrep))
     ctx.assumptions = ["GIT_* variables are inputs to git and are not varied", "when dirty state meets date-derived components the two-clock comparison is skipped (counted)"]
 
